@@ -473,6 +473,33 @@ class Body:
                     work.append(p)
         return loop
 
+    def enclosing_loop(self, bb, max_up=24):
+        """(header, loop) of the innermost natural loop that contains bb, or (None, None)."""
+        hb = bb
+        for _ in range(max_up):
+            L = self.natural_loop(hb)
+            if L and bb in L:
+                return hb, L
+            nxt = self.idom.get(hb) if isinstance(self.idom, dict) else self.idom[hb]
+            if nxt is None or nxt == hb:
+                break
+            hb = nxt
+        return None, None
+
+    def iteration_can_skip(self, header, loop, bb):
+        """True iff the loop can get from its header back to its header (one full iteration)
+        without executing block bb."""
+        seen, work = set(), [x for x in self.succ[header] if x in loop]
+        while work:
+            n = work.pop()
+            if n in seen or n not in loop or n == bb:
+                continue
+            seen.add(n)
+            if header in self.succ[n]:
+                return True
+            work.extend(self.succ[n])
+        return False
+
     def loop_exits(self, loop):
         return [(u, v) for u in sorted(loop) for v in self.succ[u] if v not in loop]
 
